@@ -28,7 +28,8 @@ enum ClauseKind : int {
     CK_SPLITUNIT = 7,     // unit implied by a new split clause at decision level 0
     CK_STRENGTHENED = 8,  // SimpSMTSolver::strengthenClause result
     CK_ELIM_BEGIN = 9,    // SimpSMTSolver::eliminateVar starts producing resolvents
-    CK_ELIM_END = 10
+    CK_ELIM_END = 10,
+    CK_TROOTTRAIL = 11    // the level-0 trail at the moment root-level theory deductions are enqueued
 };
 
 enum FrameKind : int {
